@@ -53,9 +53,6 @@ Definition cropped (v : view) (ox oy cw ch : N) : vres view :=
     then VOk (mkView (v_off v + s) (e - s) cw ch (v_bpp v) (v_pitch v))
     else VPanic.
 
-(* N-indexed sequence start, start+1, ..., of n elements *)
-Fixpoint nseq (n : nat) (start : N) : list N :=
-  match n with O => [] | S n' => start :: nseq n' (start + 1) end.
 
 (* ImageView::rows : (start, end) of each row inside data; VPanic if a slice is out of range *)
 Definition rows (v : view) : vres (list (N * N)) :=
